@@ -5,6 +5,7 @@ package offset
 // Contracts checked by /verif (govc). Comment-only: no executable code.
 
 //@ func (*OffsetLatestSeqNoInit).InitializeLatestSeqNo
+//@ params l vBucketSeqNo
 //@ props C02 C12
 //@ requires l != nil && l.config != nil
 //@ ensures.finite[C02,C12] l.config.Dcp.Mode == "finite" ==> result == vBucketSeqNo
